@@ -5,6 +5,9 @@
 //   DenseExprSet    : ghost `Set<ExprRef>` view; its bit-level implementation is verified in unit meta (C13).
 // `struct State` is cut verbatim from transition_system.rs.
 // ======================================================================================
+pub assume_specification<T>[ Option::<T>::or ](a: Option<T>, b: Option<T>) -> (r: Option<T>)
+    ensures r == (if a is Some { a } else { b });
+
 //@@EXTRACTED-ITEMS@@
 
 #[verifier::external_body]
